@@ -3,7 +3,7 @@
 // ASSUME: an item is bucket*4 + payload; the BUCKET (0..2) is part of the operation kind (constant per query), the payload is a solver variable in 0..3: a symbolic bucket makes the shape of masterLog (std::deque) and of the per-thread flat_map symbolic and a 5-operation history did not finish in 120 s
 // ASSUME: with the barrier option the worker follows ForEachExecutor::go(): pop until empty, then checkEmpty(wl) = wl.empty(), resume popping when that returns false
 // ASSUME: the worklist object is never destroyed (~OrderedByIntegerMetric walks the std::deque masterLog backwards, which CBMC cannot bound)
-// OB: ob_wl_obim tier=quick solver=cadical unwind=32 timeout=600 cbmc="--max-field-sensitivity-array-size 700" params=2,2 bounds="OrderedByIntegerMetric<Indexer, ChunkFIFO<2,Item>, BlockPeriod 0>: variants {BSP ascending, barrier ascending} (descending and the barrier variants are also exercised by the C08 obligations) x 2 kind sequences of 6 ops (table SEQ_O rows 0,1) from {push into bucket 0/1/2, pop, range push across buckets}; payloads symbolic; 1 thread" desc="pop returns only pending items, each once; an empty pop (with the barrier option: an empty pop confirmed by empty()) means nothing is pending; after draining nothing comes back"
+// OB: ob_wl_obim tier=quick solver=cadical unwind=32 timeout=600 cbmc="--max-field-sensitivity-array-size 700" params=1,2 bounds="OrderedByIntegerMetric<Indexer, ChunkFIFO<2,Item>, BlockPeriod 0>: variants {BSP ascending, barrier ascending} (descending and more histories of both are exercised by the quick C08 obligations ob_lv_backscan / ob_lv_obim_barrier, all variants x all rows by ob_wl_obim_more) x 1 kind sequence of 6 ops (table SEQ_O row 0) from {push into bucket 0/1/2, pop, range push across buckets}; payloads symbolic; 1 thread" desc="pop returns only pending items, each once; an empty pop (with the barrier option: an empty pop confirmed by empty()) means nothing is pending; after draining nothing comes back"
 // OB: ob_wl_obim_more tier=thorough solver=cadical unwind=32 timeout=600 cbmc="--max-field-sensitivity-array-size 700" params=6,7 bounds="OrderedByIntegerMetric: variants {BSP asc, barrier asc, BSP desc, no-BSP asc, barrier desc, BSP asc over PerSocketChunkFIFO<2,Item>, BlockPeriod 1} x all 6 rows of SEQ_O" desc="work conservation, one worker"
 #include "C01_obim_common.h"
 #include "vf_standalone.h"
